@@ -82,6 +82,12 @@ pub fn skip_unreachable<'b: 'b>(_d: &mut minicbor::Decoder<'b>) -> Result<(), Er
 /// R3 model of `Decoder::skip` (C06 is what proves skip == R3 on its domain): at most 3 heads,
 /// nesting depth 2.  Leaving that domain is an assertion failure, not a pruned path.
 pub fn skip_r3_small<'b: 'b>(d: &mut minicbor::Decoder<'b>) -> Result<(), Error> {
+    // minicbor-derive uses skip() to consume the break byte of an indefinite container: on a lone
+    // break the real skip() consumes it and returns Ok (not an item; R3 does not cover it)
+    {
+        let (inp, p) = (d.input(), d.position());
+        if p < inp.len() && inp[p] == 0xff { d.set_position(p + 1); return Ok(()) }
+    }
     match vref::wellformed::<2>(d.input(), d.position(), 3) {
         vref::Wf::Ok { end, .. } => { d.set_position(end); Ok(()) }
         vref::Wf::Trunc => Err(Error::end_of_input()),
@@ -92,4 +98,20 @@ pub fn skip_r3_small<'b: 'b>(d: &mut minicbor::Decoder<'b>) -> Result<(), Error>
             loop {}
         }
     }
+}
+
+/// Over-approximation of `core::str::from_utf8` for harnesses whose subject is not UTF-8
+/// validation (which is checked unstubbed in `c04_str_definite_utf8`): either verdict.
+pub fn from_utf8_overapprox(v: &[u8]) -> Result<&str, core::str::Utf8Error> {
+    if v.is_empty() || kani::any() {
+        Ok(unsafe { core::str::from_utf8_unchecked(v) })
+    } else {
+        let mut bad = [0xffu8];
+        match core::str::from_utf8_mut(&mut bad) { Err(e) => Err(e), Ok(_) => loop {} }
+    }
+}
+
+/// `core::str::from_utf8` model for harnesses that are about item *boundaries*: always valid.
+pub fn from_utf8_ok(v: &[u8]) -> Result<&str, core::str::Utf8Error> {
+    Ok(unsafe { core::str::from_utf8_unchecked(v) })
 }
